@@ -37,6 +37,12 @@ CLAIMS["C10"] = dict(cat="other", tech="expression agreement between writer and 
 CLAIMS["C09"] = dict(cat="other", tech="expression agreement on sibling functions (def-use normal forms, operand roles), arm/effect agreement between writer and reader, bit-provenance for the key packing",
    text="Inverse-operation and wire-layout agreement behind delta application: create_item_delta/apply_item_delta store wrapping_sub/wrapping_add with matching operand roles and copy new items verbatim, with no panicking arithmetic on item words; Delta::write_impl and read_impl write/read the size word under the same predicate (object_size(type) is None) for the same argument and exchange the same header length and one data word per element; key packing is a bijection; crc is a wrapping fold; create_raw records deletions exactly for keys missing in the target and an update for every target item.",
    note=TB + "The equality apply(A, create(A,B)) = B as such, and agreement with the DDNet reference implementation, are value-level / cross-language and are not decided.")
+CLAIMS["C11"] = dict(cat="other", tech="MIR panic-site discharge over the snapshot API incl. follow-up operations; who-may-write choke-point rule with dominance of the limit tests; pairing and clause rules",
+   text="Totality of the snapshot/delta parsers and of the follow-up operations on accepted snapshots (every reachable panic site discharged by dominating guards or reviewed; three genuine sites are listed known findings); the 1024-item / 64 KiB limits are enforced at a single choke point (only prepare_item_vacant inserts/grows, dominated by both limit tests with the evaluated constants); the delta reader allocates one word per word read and range-checks ids/sizes; a resizing delta is refused before apply_item_delta.",
+   note=TB + "'Written out and read back equal' is value-level and not decided. Known findings: Delta::create on snapshots whose common key has different lengths, Builder::add_item after type ids are exhausted, Delta::write with an inconsistent object_size.")
+CLAIMS["C13"] = dict(cat="other", tech="dominance / must-pass-through rules on the CFGs of Storage and Manager; MIR panic-site discharge",
+   text="The anchored mechanisms as dominance facts: ack_tick = Some(tick) and the stored snapshot are dominated by the Ok edge of read_with_delta and the crc-match edge; UnknownSnap/InvalidCrc returns pass ack_tick = None; the base snapshot is taken only on the tick-equality edge; set_delta_tick/add_snap use the exact base or none; the Manager routes receiver -> delta read -> storage and never touches storage after an error; reachable panic sites are discharged or reviewed.",
+   note=TB + "Item-for-item equality with the sender over all loss/duplication histories is a history-level property and is not decided. Known finding: Delta::create (via Storage::add_snap) panics when an item changes its length between snapshots.")
 NA = {}
 m = {"version": 1,
      "setup_cmd": "cd /verif/engine/mirfacts && CARGO_NET_OFFLINE=true cargo build --release --offline",
